@@ -11,7 +11,8 @@ from vlib import boot, gen, iolab, lab
 
 PROPERTY = 'C09'
 LEVEL = 'exploration'
-RULE = ('seeded generation: 1..3 resources (multi-byte text, empty resources, 0..40 rows) x format {csv,json} x '
+RULE = ('seeded generation: 1..3 resources (multi-byte text, empty resources, 0..40 rows) x format {csv,json; fewer cases '
+        'of xlsx/excel,geojson} x '
         '{dump_to_path, dump_to_zip} x counters {default, renamed, dotted, some disabled} x add_filehash_to_path x '
         'pretty_descriptor; each case dumps twice (hash reproducibility); distinct = case hash; non-trivial = >=1 '
         'non-empty resource whose recorded bytes, hash and row count were all compared with the written file')
@@ -19,6 +20,8 @@ ASSUMPTIONS = [
     'a counter configured as None must simply be absent',
     'the package-level hash is only required to be reproducible (its definition is undocumented)',
     'package totals are compared with the sums over the resources recorded in the written descriptor',
+    'xlsx: the data-row count is the number of sheet rows minus the header row (openpyxl reader); the second dump of a '
+    'few xlsx cases happens 2.1 s after the first (zip member / document timestamps have 1-2 s resolution)',
 ]
 REQUIRED_COUNTERS = ['files_measured', 'stats_compared']
 
@@ -27,6 +30,10 @@ def gen_cases(tier, seed):
     n = {'quick': 400, 'thorough': 8000}[tier]
     for i in range(n):
         yield {'family': ['csv', 'json'][i % 2] + ['/path', '/zip'][(i // 2) % 2], 'idx': i, 'seed': seed}
+    # the other documented formats: the recorded numbers must describe those files too
+    for i in range({'quick': 24, 'thorough': 400}[tier]):
+        yield {'family': ['xlsx', 'geojson', 'excel'][i % 3] + ['/path', '/zip'][(i // 3) % 2], 'idx': n + i, 'seed': seed,
+               'pause': i < 4}
 
 
 def get_attr(obj, prop):
@@ -54,6 +61,30 @@ COUNTER_SETS = {
 }
 DEFAULTS = {'datapackage-rowcount': 'count_of_rows', 'datapackage-bytes': 'bytes', 'datapackage-hash': 'hash',
             'resource-rowcount': 'count_of_rows', 'resource-bytes': 'bytes', 'resource-hash': 'hash'}
+
+
+def xlsx_equal_but_for_timestamps(a, b):
+    """Both are zip containers with the same members whose contents are equal once the created / modified
+    timestamps of docProps/core.xml are blanked (member mtimes are not content)."""
+    import io
+    import re
+    import zipfile
+    if a is None or b is None:
+        return False
+    try:
+        za, zb = zipfile.ZipFile(io.BytesIO(a)), zipfile.ZipFile(io.BytesIO(b))
+    except Exception:
+        return False
+    if za.namelist() != zb.namelist():
+        return False
+    stamp = re.compile(rb'<dcterms:(created|modified)[^>]*>[^<]*</dcterms:(created|modified)>')
+    for n in za.namelist():
+        ca, cb = za.read(n), zb.read(n)
+        if n == 'docProps/core.xml':
+            ca, cb = stamp.sub(b'', ca), stamp.sub(b'', cb)
+        if ca != cb:
+            return False
+    return True
 
 
 def run_case(case):
@@ -114,6 +145,7 @@ def run_case(case):
         desc_size = len(w.read('datapackage.json'))
         tot_bytes = tot_rows = 0
         hashes1 = {}
+        bytes1 = {}
         for rd, r in zip(wd['resources'], res):
             path = rd.get('path')
             if not w.exists(path):
@@ -145,6 +177,8 @@ def run_case(case):
             tot_bytes += len(data)
             tot_rows += iolab.count_data_rows(rd, data)
             hashes1[rd['name']] = iolab.md5(data)
+            if fmt in ('xlsx', 'excel'):
+                bytes1[rd['name']] = data
             if full and r['rows']:
                 nontrivial = True
         # package totals in the written descriptor
@@ -179,6 +213,9 @@ def run_case(case):
     finally:
         w.close()
     # second dump of the same data: identical hashes
+    if case.get('pause') and fmt in ('xlsx', 'excel'):
+        import time
+        time.sleep(2.1)
     dp2, stats2, err2 = dump(out2)
     if err2 is not None:
         add('dump_failed', 'second dump failed: %s' % err2, 'dump_failed/second')
@@ -186,16 +223,22 @@ def run_case(case):
         w2 = iolab.Written(out2, is_zip=(kind == 'zip'))
         try:
             wd2 = w2.descriptor()
+            only_stamps = fmt in ('xlsx', 'excel')      # every byte difference explained by container timestamps?
             for rd in wd2['resources']:
                 if w2.exists(rd['path']) and hashes1.get(rd['name']) != iolab.md5(w2.read(rd['path'])):
-                    add('hash_unstable', 'resource %s bytes differ between two dumps of equal data' % rd['name'],
-                        'hash_unstable/' + fmt)
+                    mech = 'hash_unstable/' + fmt
+                    if only_stamps and xlsx_equal_but_for_timestamps(bytes1.get(rd['name']), w2.read(rd['path'])):
+                        mech = 'xlsx_container_timestamps'
+                    else:
+                        only_stamps = False
+                    add('hash_unstable', 'resource %s bytes differ between two dumps of equal data' % rd['name'], mech)
                 rh = cnames['resource-hash']
                 if rh and get_attr(rd, rh) != get_attr(next(x for x in wd['resources'] if x['name'] == rd['name']), rh):
                     add('hash_unstable', 'resource %s recorded hash differs between two dumps' % rd['name'],
-                        'recorded_hash_unstable')
+                        'xlsx_container_timestamps' if only_stamps else 'recorded_hash_unstable/' + fmt)
             if cnames['datapackage-hash'] and get_attr(wd2, cnames['datapackage-hash']) != pkg_hash1:
-                add('hash_unstable', 'package hash differs between two dumps of equal data', 'package_hash_unstable')
+                add('hash_unstable', 'package hash differs between two dumps of equal data',
+                    'xlsx_container_timestamps' if only_stamps else 'package_hash_unstable/' + fmt)
         finally:
             w2.close()
     sample = {'config': cfg, 'written_descriptor_counters': {k: get_attr(wd, v) for k, v in cnames.items() if v and k.startswith('datapackage')},
